@@ -11,8 +11,7 @@ Section Ecrts19.
   Definition bound_response_time (steps : N -> list N) (bw_rhs : N -> N) (rhs : N -> N -> N) : result :=
     rbind (search sbf st dbg limit bw_rhs) (fun max_bw =>
       (* offsets = steps - 1, taken while <= max_bw *)
-      let ss := steps (max_bw + 1) in
-      if existsb (fun d => d =? 0) ss then RPanic else
+      let ss := filter (fun d => 0 <? d) (steps (max_bw + 1)) in       (* zero-length steps are skipped *)
       max_response_time
         (map (fun off => search_with_offset st off limit (rhs off)) (map (fun d => d - 1) ss))).
 
